@@ -10,37 +10,37 @@ open YaegiVerif YaegiVerif.RunId
 def NamedLate (h : HSt) : Prop := ∀ d ∈ h.defs, (d.kind = .named ∨ d.kind = .method) → d.binding = .callee
 
 theorem leave_defs (F : RunIdFacts) (h : HSt) : (h.leave F).defs = h.defs := rfl
-theorem refresh_defs (F : RunIdFacts) (h : HSt) : (h.refresh F).defs = h.defs := rfl
+theorem enter_defs (F : RunIdFacts) (h : HSt) (c : Bool) : (h.enter F c).defs = h.defs := rfl
+
+/-- the definitions after `useBody`: the used one has one more call, nothing else changes -/
+theorem useBody_defs (F : RunIdFacts) (h : HSt) (i x : Nat) :
+    (useBody F h i x).defs = h.defs ∨
+    ∃ d, h.defs[i]? = some d ∧ (useBody F h i x).defs = h.defs.set i { d with calls := d.calls + 1 } := by
+  unfold useBody
+  cases hg : h.defs[i]? with
+  | none => left; rfl
+  | some d =>
+    simp only []
+    split
+    · split
+      · right; exact ⟨d, rfl, rfl⟩
+      · right; exact ⟨d, rfl, rfl⟩
+    · left; rfl
 
 /-- the definitions after a use: the used one has one more call, nothing else changes -/
 theorem use_defs (F : RunIdFacts) (h : HSt) (i : Nat) (via : Via) (x : Nat) :
     (stepH F h (.use i via x)).defs = h.defs ∨
     ∃ d, h.defs[i]? = some d ∧ (stepH F h (.use i via x)).defs = h.defs.set i { d with calls := d.calls + 1 } := by
   cases via with
-  | eval =>
-    simp only [stepH]
-    cases hg : (h.refresh F).defs[i]? with
-    | none => left; simp [leave_defs, refresh_defs]
-    | some d =>
-      simp only []
-      split
-      · right; exact ⟨d, by simpa [refresh_defs] using hg, by simp [leave_defs, refresh_defs]⟩
-      · left; simp [leave_defs, refresh_defs]
-  | host =>
-    simp only [stepH]
-    cases hg : h.defs[i]? with
-    | none => left; rfl
-    | some d =>
-      simp only []
-      split
-      · right; exact ⟨d, rfl, rfl⟩
-      · left; rfl
+  | eval => simpa [stepH, leave_defs, enter_defs] using useBody_defs F (h.enter F false) i x
+  | evalCtx => simpa [stepH, leave_defs, enter_defs] using useBody_defs F (h.enter F true) i x
+  | host => simpa [stepH] using useBody_defs F h i x
 
 theorem namedLate_step (F : RunIdFacts) (h : HSt) (ev : Ev) (hn : NamedLate h) : NamedLate (stepH F h ev) := by
   cases ev with
-  | define k a b =>
+  | define k a b blk =>
     intro d hd hk
-    simp only [stepH, HSt.refresh, HSt.leave, List.mem_append, List.mem_cons, List.not_mem_nil, or_false] at hd
+    simp only [stepH, HSt.enter, HSt.refresh, HSt.leave, List.mem_append, List.mem_cons, List.not_mem_nil, or_false] at hd
     rcases hd with hd | hd
     · exact hn d hd hk
     · subst hd
@@ -56,45 +56,106 @@ theorem namedLate_step (F : RunIdFacts) (h : HSt) (ev : Ev) (hn : NamedLate h) :
         exact hn d0 (List.mem_of_getElem? hg) hk
   | cancelled c =>
     intro d hd hk
-    cases c <;> simp only [stepH, HSt.refresh, HSt.leave] at hd <;> exact hn d hd hk
+    cases c <;> simp only [stepH, HSt.enter, HSt.stop, HSt.refresh, HSt.leave] at hd <;> exact hn d hd hk
 
 theorem namedLate_run (F : RunIdFacts) (evs : List Ev) (h : HSt) (hn : NamedLate h) : NamedLate (runHist F h evs) := by
   induction evs generalizing h with
   | nil => exact hn
   | cons e es ih => exact ih _ (namedLate_step F h e hn)
 
-/-- forget what the specification does not have: ids and bindings -/
+/-- forget what the specification does not have: ids, done channels and bindings -/
 def erase (h : HSt) : HSt :=
-  { id := 0, rootId := 0, defs := h.defs.map (fun d => { d with binding := .callee }), results := h.results }
+  { id := 0, rootId := 0, idone := false, rdone := false,
+    defs := h.defs.map (fun d => { d with binding := .callee }), results := h.results }
 
 /-! ### with the facts of the repaired interpreter: between two events the root frame carries the interpreter's id -/
 
 /-- **The id invariant of histories**: whenever no evaluation is running, the root frame carries the interpreter's
-    current id (`Execute` refreshes it when it starts and, deferred, when it returns — a cancelled `Execute` included) -/
-def Synced (h : HSt) : Prop := h.rootId = h.id
+    current id (`Execute` refreshes it when it starts and, deferred, when it returns — a cancelled `Execute`
+    included), and `interp.done` is an open channel (`stop()` replaces the one it closes) -/
+def Synced (h : HSt) : Prop := h.rootId = h.id ∧ h.idone = false
+
+theorem useBody_ids (F : RunIdFacts) (h : HSt) (i x : Nat) :
+    (useBody F h i x).id = h.id ∧ (useBody F h i x).rootId = h.rootId ∧ (useBody F h i x).idone = h.idone ∧
+    (useBody F h i x).rdone = h.rdone := by
+  unfold useBody
+  cases h.defs[i]? with
+  | none => exact ⟨rfl, rfl, rfl, rfl⟩
+  | some d => simp only []; split <;> (try split) <;> exact ⟨rfl, rfl, rfl, rfl⟩
+
+theorem fact_rar : Expected.C10.facts.execRefreshAtReturn = true := rfl
+theorem fact_ref : Expected.C10.facts.execRefresh = true := rfl
+theorem fact_fresh : Expected.C10.facts.ctxFreshDone = true := rfl
+
+/-- the ids and done channels after an evaluation of a call that completes -/
+theorem use_eval_fields (h : HSt) (c : Bool) (i x : Nat) :
+    ((useBody Expected.C10.facts (h.enter Expected.C10.facts c) i x).leave Expected.C10.facts).id = h.id ∧
+    ((useBody Expected.C10.facts (h.enter Expected.C10.facts c) i x).leave Expected.C10.facts).rootId = h.id ∧
+    ((useBody Expected.C10.facts (h.enter Expected.C10.facts c) i x).leave Expected.C10.facts).idone = (if c then false else h.idone) ∧
+    ((useBody Expected.C10.facts (h.enter Expected.C10.facts c) i x).leave Expected.C10.facts).rdone = (if c then false else h.idone) := by
+  obtain ⟨e1, _, e3, e4⟩ := useBody_ids Expected.C10.facts (h.enter Expected.C10.facts c) i x
+  refine ⟨?_, ?_, ?_, ?_⟩
+  · show (useBody Expected.C10.facts (h.enter Expected.C10.facts c) i x).id = h.id
+    rw [e1]; rfl
+  · show (if Expected.C10.facts.execRefreshAtReturn = true then (useBody Expected.C10.facts (h.enter Expected.C10.facts c) i x).id
+        else (useBody Expected.C10.facts (h.enter Expected.C10.facts c) i x).rootId) = h.id
+    rw [fact_rar, if_pos rfl, e1]; rfl
+  · show (useBody Expected.C10.facts (h.enter Expected.C10.facts c) i x).idone = _
+    rw [e3]; cases c <;> simp [HSt.enter, fact_fresh]
+  · show (useBody Expected.C10.facts (h.enter Expected.C10.facts c) i x).rdone = _
+    rw [e4]; cases c <;> simp [HSt.enter, fact_fresh]
 
 theorem synced_step (h : HSt) (ev : Ev) (hs : Synced h) : Synced (stepH Expected.C10.facts h ev) := by
+  obtain ⟨hs1, hs2⟩ := hs
   cases ev with
-  | define k a b => simp [Synced, stepH, HSt.refresh, HSt.leave, Expected.C10.facts, Expected.C09.facts]
+  | define k a b blk => simp [Synced, stepH, HSt.enter, HSt.refresh, HSt.leave, Expected.C10.facts, Expected.C09.facts, hs2]
   | use i via x =>
     cases via with
-    | eval => simp [Synced, stepH, HSt.leave, Expected.C10.facts, Expected.C09.facts]
+    | eval =>
+      obtain ⟨f1, f2, f3, _⟩ := use_eval_fields h false i x
+      exact ⟨by simp only [stepH]; rw [f1, f2], by simp only [stepH]; rw [f3]; simpa using hs2⟩
+    | evalCtx =>
+      obtain ⟨f1, f2, f3, _⟩ := use_eval_fields h true i x
+      exact ⟨by simp only [stepH]; rw [f1, f2], by simp only [stepH]; rw [f3]; rfl⟩
     | host =>
-      simp only [Synced, stepH]
-      cases h.defs[i]? with
-      | none => exact hs
-      | some d => simp only []; split <;> exact hs
+      have := useBody_ids Expected.C10.facts h i x
+      simp only [Synced, stepH, this.1, this.2.1, this.2.2.1]
+      exact ⟨hs1, hs2⟩
   | cancelled c =>
-    cases c <;> simp [Synced, stepH, HSt.refresh, HSt.leave, Expected.C10.facts, Expected.C09.facts]
+    cases c <;> simp [Synced, stepH, HSt.enter, HSt.stop, HSt.refresh, HSt.leave, Expected.C10.facts, Expected.C09.facts]
+
+/-- which done channel the root frame holds after an event (while `interp.done` is open): an evaluation that
+    completes leaves an open one, a host call leaves it alone, a cancelled evaluation leaves the channel `stop()`
+    closed — unless `stop()` ran before its `Execute` started -/
+theorem rdone_after (h : HSt) (ev : Ev) (hs : Synced h) :
+    (stepH Expected.C10.facts h ev).rdone =
+      match ev with
+      | .define _ _ _ _ => false
+      | .use _ .host _ => h.rdone
+      | .use _ _ _ => false
+      | .cancelled .expiredBefore => false
+      | .cancelled _ => true := by
+  obtain ⟨_, hs2⟩ := hs
+  cases ev with
+  | define k a b blk => simp [stepH, HSt.enter, HSt.refresh, HSt.leave, hs2]
+  | use i via x =>
+    cases via with
+    | eval => simp only [stepH]; rw [(use_eval_fields h false i x).2.2.2]; simpa using hs2
+    | evalCtx => simp only [stepH]; rw [(use_eval_fields h true i x).2.2.2]; rfl
+    | host =>
+      have := useBody_ids Expected.C10.facts h i x
+      simp [stepH, this.2.2.2]
+  | cancelled c =>
+    cases c <;> simp [stepH, HSt.enter, HSt.stop, HSt.refresh, HSt.leave, Expected.C10.facts, Expected.C09.facts]
 
 /-- the site of a binding made by `bindingOf` is never the site of declared functions -/
 def FvBound (h : HSt) : Prop := ∀ d ∈ h.defs, ∀ c, d.binding ≠ .fixed .call c
 
 theorem fvBound_step (F : RunIdFacts) (h : HSt) (ev : Ev) (hn : FvBound h) : FvBound (stepH F h ev) := by
   cases ev with
-  | define k a b =>
+  | define k a b blk =>
     intro d hd c
-    simp only [stepH, HSt.refresh, HSt.leave, List.mem_append, List.mem_cons, List.not_mem_nil, or_false] at hd
+    simp only [stepH, HSt.enter, HSt.refresh, HSt.leave, List.mem_append, List.mem_cons, List.not_mem_nil, or_false] at hd
     rcases hd with hd | hd
     · exact hn d hd c
     · subst hd
@@ -110,14 +171,13 @@ theorem fvBound_step (F : RunIdFacts) (h : HSt) (ev : Ev) (hn : FvBound h) : FvB
         exact hn d0 (List.mem_of_getElem? hg) c
   | cancelled c =>
     intro d hd c'
-    cases c <;> simp only [stepH, HSt.refresh, HSt.leave] at hd <;> exact hn d hd c'
+    cases c <;> simp only [stepH, HSt.enter, HSt.stop, HSt.refresh, HSt.leave] at hd <;> exact hn d hd c'
 
-/-- when the root frame is in step with the interpreter EVERY definition runs, however it is bound: the frame of a
-    named function takes the id of the (root) frame that calls it, the frame of a closure, of a method value and of
-    a function handed to the host takes the root frame's id (`newCallFrame`) -/
-theorem synced_alive (h : HSt) (d : Def) (hs : Synced h) (hb' : ∀ c, d.binding ≠ .fixed .call c) :
+/-- when the root frame is in step with the interpreter EVERY definition gets a live frame, however it is bound: the
+    frame of a named function takes the id of the (root) frame that calls it, the frame of a closure, of a method
+    value and of a function handed to the host takes the root frame's id (`newCallFrame`) -/
+theorem synced_alive (h : HSt) (d : Def) (hs : h.rootId = h.id) (hb' : ∀ c, d.binding ≠ .fixed .call c) :
     alive Expected.C10.facts h d = true := by
-  unfold Synced at hs
   cases hb : d.binding with
   | callee => simp [alive, useFrameId, hb, guardOk, newId, Expected.C10.facts, Expected.C09.facts, hs]
   | root => simp [alive, useFrameId, hb, guardOk, newId, Expected.C10.facts, Expected.C09.facts, hs]
@@ -131,59 +191,74 @@ theorem synced_alive (h : HSt) (d : Def) (hs : Synced h) (hb' : ∀ c, d.binding
 theorem import_runs (h : HSt) : importRuns Expected.C10.facts h = true := by
   simp [importRuns, guardOk, Expected.C10.facts, Expected.C09.facts]
 
-theorem refresh_synced (h : HSt) (hs : Synced h) : h.refresh Expected.C10.facts = h := by
-  obtain ⟨id, rootId, defs, results⟩ := h
-  unfold Synced at hs
-  simp only at hs
-  simp [HSt.refresh, Expected.C10.facts, Expected.C09.facts, hs]
-
 theorem erase_leave (F : RunIdFacts) (h : HSt) : erase (h.leave F) = erase h := rfl
+theorem erase_enter (F : RunIdFacts) (h : HSt) (c : Bool) : erase (h.enter F c) = erase h := rfl
 
-/-- what a use does once the root id is settled -/
-def useBody (F : RunIdFacts) (h1 : HSt) (i x : Nat) : HSt :=
-  match h1.defs[i]? with
-  | none => h1
-  | some d =>
-    if alive F h1 d then
-      { h1 with defs := h1.defs.set i { d with calls := d.calls + 1 }, results := value d x :: h1.results }
-    else
-      { h1 with results := 0 :: h1.results }
+/-- the domain, one event at a time (a decidable predicate of the state the event meets): the host does not call a
+    function value whose body blocks on a channel while the root frame holds a closed done channel (F10-3) -/
+def okEv (h : HSt) : Ev → Bool
+  | .use i .host _ => !(h.rdone && (match h.defs[i]? with | some d => d.blk | none => false))
+  | _ => true
 
-theorem stepH_use_eval (F : RunIdFacts) (h : HSt) (i x : Nat) :
-    stepH F h (.use i .eval x) = (useBody F (h.refresh F) i x).leave F := rfl
-theorem stepH_use_host (F : RunIdFacts) (h : HSt) (i x : Nat) :
-    stepH F h (.use i .host x) = useBody F h i x := rfl
-
-theorem useBody_spec (h : HSt) (i x : Nat) (via : Via) (hs : Synced h) (hf : FvBound h) :
+/-- a use whose frame is live and whose blocking operations are not cancelled is the use of the specification -/
+theorem useBody_spec (h : HSt) (i x : Nat) (via : Via) (hs : h.rootId = h.id) (hf : FvBound h)
+    (hok : h.rdone = false ∨ ∀ d, h.defs[i]? = some d → d.blk = false) :
     erase (useBody Expected.C10.facts h i x) = stepSpec (erase h) (.use i via x) := by
   unfold useBody
   cases hg : h.defs[i]? with
   | none => simp [stepSpec, erase, hg]
   | some d0 =>
-    simp only [synced_alive h d0 hs (hf d0 (List.mem_of_getElem? hg)), if_true]
+    have hb : (d0.blk && h.rdone) = false := by
+      rcases hok with h1 | h1
+      · simp [h1]
+      · simp [h1 d0 hg]
+    simp only [synced_alive h d0 hs (hf d0 (List.mem_of_getElem? hg)), if_true, hb]
     simp [stepSpec, erase, hg, List.map_set, value]
 
-/-- one event of the real history is one event of the specification, for EVERY event -/
-theorem full_step (h : HSt) (ev : Ev) (hs : Synced h) (hf : FvBound h) :
+/-- one event of the real history is one event of the specification, for every event inside the domain -/
+theorem full_step (h : HSt) (ev : Ev) (hs : Synced h) (hf : FvBound h) (hok : okEv h ev = true) :
     erase (stepH Expected.C10.facts h ev) = stepSpec (erase h) ev := by
+  obtain ⟨hs1, hs2⟩ := hs
   cases ev with
-  | define k a b =>
-    cases k <;> simp [stepH, stepSpec, erase, HSt.refresh, HSt.leave, import_runs]
+  | define k a b blk =>
+    cases k <;> simp [stepH, stepSpec, erase, HSt.enter, HSt.refresh, HSt.leave, import_runs]
   | use i via x =>
     cases via with
-    | eval => rw [stepH_use_eval, erase_leave, refresh_synced h hs]; exact useBody_spec h i x .eval hs hf
-    | host => rw [stepH_use_host]; exact useBody_spec h i x .host hs hf
+    | eval =>
+      simp only [stepH]
+      rw [erase_leave, ← erase_enter Expected.C10.facts h false]
+      exact useBody_spec _ i x .eval (by simp [HSt.enter, HSt.refresh, Expected.C10.facts, Expected.C09.facts]) hf
+        (Or.inl (by simp [HSt.enter, hs2]))
+    | evalCtx =>
+      simp only [stepH]
+      rw [erase_leave, ← erase_enter Expected.C10.facts h true]
+      exact useBody_spec _ i x .evalCtx (by simp [HSt.enter, HSt.refresh, Expected.C10.facts, Expected.C09.facts]) hf
+        (Or.inl (by simp [HSt.enter, Expected.C10.facts, Expected.C09.facts]))
+    | host =>
+      simp only [stepH]
+      refine useBody_spec h i x .host hs1 hf ?_
+      simp only [okEv, Bool.not_eq_true', Bool.and_eq_false_iff] at hok
+      rcases hok with h1 | h1
+      · exact Or.inl h1
+      · refine Or.inr (fun d hd => ?_)
+        simpa [hd] using h1
   | cancelled c =>
-    cases c <;> simp [stepH, stepSpec, erase, HSt.refresh, HSt.leave]
+    cases c <;> simp [stepH, stepSpec, erase, HSt.enter, HSt.stop, HSt.refresh, HSt.leave]
 
-theorem full_run (evs : List Ev) (h : HSt) (hs : Synced h) (hf : FvBound h) :
+/-- the domain of a whole history, from a state -/
+def DomFrom (F : RunIdFacts) (h : HSt) : List Ev → Bool
+  | [] => true
+  | e :: es => okEv h e && DomFrom F (stepH F h e) es
+
+theorem full_run (evs : List Ev) (h : HSt) (hs : Synced h) (hf : FvBound h) (hd : DomFrom Expected.C10.facts h evs = true) :
     erase (runHist Expected.C10.facts h evs) = runSpec (erase h) evs := by
   induction evs generalizing h with
   | nil => rfl
   | cons e es ih =>
+    simp only [DomFrom, Bool.and_eq_true] at hd
     simp only [runHist, runSpec, List.foldl_cons]
-    rw [← full_step h e hs hf]
-    exact ih _ (synced_step h e hs) (fvBound_step _ h e hf)
+    rw [← full_step h e hs hf hd.1]
+    exact ih _ (synced_step h e hs) (fvBound_step _ h e hf) hd.2
 
 theorem synced_run (evs : List Ev) (h : HSt) (hs : Synced h) : Synced (runHist Expected.C10.facts h evs) := by
   induction evs generalizing h with
@@ -195,15 +270,62 @@ theorem fvBound_run (F : RunIdFacts) (evs : List Ev) (h : HSt) (hs : FvBound h) 
   | nil => exact hs
   | cons e es ih => exact ih _ (fvBound_step F h e hs)
 
+/-- histories in which no body blocks on a channel are inside the domain -/
+def noBlk : List Ev → Bool
+  | [] => true
+  | .define _ _ _ blk :: es => !blk && noBlk es
+  | _ :: es => noBlk es
+
+theorem noBlk_dom (F : RunIdFacts) (evs : List Ev) (h : HSt) (hn : noBlk evs = true) (hb : ∀ d ∈ h.defs, d.blk = false) :
+    DomFrom F h evs = true := by
+  induction evs generalizing h with
+  | nil => rfl
+  | cons e es ih =>
+    have hb' : ∀ d ∈ (stepH F h e).defs, d.blk = false := by
+      cases e with
+      | define k a b blk =>
+        simp only [noBlk, Bool.and_eq_true, Bool.not_eq_true'] at hn
+        intro d hd
+        simp only [stepH, HSt.enter, HSt.refresh, HSt.leave, List.mem_append, List.mem_cons, List.not_mem_nil, or_false] at hd
+        rcases hd with hd | hd
+        · exact hb d hd
+        · subst hd; exact hn.1
+      | use i via x =>
+        intro d hd
+        rcases use_defs F h i via x with he | ⟨d0, hg, he⟩
+        · rw [he] at hd; exact hb d hd
+        · rw [he] at hd
+          rcases List.mem_or_eq_of_mem_set hd with hd | hd
+          · exact hb d hd
+          · subst hd; exact hb d0 (List.mem_of_getElem? hg)
+      | cancelled c =>
+        intro d hd
+        cases c <;> simp only [stepH, HSt.enter, HSt.stop, HSt.refresh, HSt.leave] at hd <;> exact hb d hd
+    have hn' : noBlk es = true := by
+      cases e with
+      | define k a b blk => simp only [noBlk, Bool.and_eq_true] at hn; exact hn.2
+      | use i via x => simpa [noBlk] using hn
+      | cancelled c => simpa [noBlk] using hn
+    have hok : okEv h e = true := by
+      cases e with
+      | use i via x =>
+        cases via <;> simp only [okEv]
+        cases hg : h.defs[i]? with
+        | none => simp
+        | some d => simp [hb d (List.mem_of_getElem? hg)]
+      | _ => rfl
+    simp only [DomFrom, hok, Bool.true_and]
+    exact ih _ hn' hb'
+
 /-- the ids only grow -/
 theorem id_monotone (F : RunIdFacts) (h : HSt) (ev : Ev) : h.id ≤ (stepH F h ev).id := by
   cases ev with
-  | define k a b => simp [stepH, HSt.refresh, HSt.leave]
+  | define k a b blk => simp [stepH, HSt.enter, HSt.refresh, HSt.leave]
   | use i via x =>
     have : (stepH F h (.use i via x)).id = h.id := by
-      cases via <;> simp only [stepH, HSt.refresh, HSt.leave] <;> (repeat' split) <;> rfl
+      cases via <;> simp [stepH, HSt.leave, (useBody_ids F _ i x).1, HSt.enter, HSt.refresh]
     omega
   | cancelled c =>
-    cases c <;> simp only [stepH, HSt.refresh, HSt.leave] <;> split <;> simp
+    cases c <;> simp only [stepH, HSt.enter, HSt.stop, HSt.refresh, HSt.leave] <;> split <;> simp
 
 end YaegiVerif.Proofs.C10
